@@ -227,34 +227,53 @@ impl<const B: Word> Repr<B> {
 
     /// Normalize the float representation so that the significand is not divisible by the base.
     /// Any floats with zero significand will be considered as zero value (instead of an `INFINITY`)
+    ///
+    /// # Panics
+    ///
+    /// Panics if the exponent of the normalized number does not fit in an [isize].
     pub(crate) fn normalize(self) -> Self {
+        match self.try_normalize() {
+            Some(repr) => repr,
+            None => crate::error::panic_exponent_overflow(),
+        }
+    }
+
+    /// Normalize the float representation, [None] is returned when the exponent of the
+    /// normalized number (the exponent plus the number of trailing zero digits removed from
+    /// the significand) does not fit in an [isize].
+    pub(crate) fn try_normalize(self) -> Option<Self> {
         let Self {
             mut significand,
-            mut exponent,
+            exponent,
         } = self;
         if significand.is_zero() {
-            return Self::zero();
+            return Some(Self::zero());
         }
 
-        if B == 2 {
+        let shift = if B == 2 {
             let shift = significand.trailing_zeros().unwrap();
             significand >>= shift;
-            exponent += shift as isize;
+            shift
         } else if B.is_power_of_two() {
             let bits = B.trailing_zeros() as usize;
             let shift = significand.trailing_zeros().unwrap() / bits;
             significand >>= shift * bits;
-            exponent += shift as isize;
+            shift
         } else {
             let (sign, mut mag) = significand.into_parts();
             let shift = mag.remove(&UBig::from_word(B)).unwrap();
-            exponent += shift as isize;
             significand = IBig::from_parts(sign, mag);
-        }
-        Self {
+            shift
+        };
+        // not `exponent + shift as isize`: the sum overflows (a panic only in builds with
+        // overflow checks, a wrapped exponent otherwise) for exponents next to isize::MAX
+        let exponent = isize::try_from(shift)
+            .ok()
+            .and_then(|shift| exponent.checked_add(shift))?;
+        Some(Self {
             significand,
             exponent,
-        }
+        })
     }
 
     /// Get the number of digits (under base `B`) in the significand.
@@ -355,6 +374,11 @@ impl<const B: Word> Repr<B> {
     /// assert_eq!(b.significand(), &IBig::from(4));
     /// assert_eq!(b.exponent(), 0);
     /// ```
+    ///
+    /// # Panics
+    ///
+    /// Panics if the exponent of the normalized number (the exponent plus the number of trailing
+    /// zero digits of the significand) is larger than [isize::MAX].
     #[inline]
     pub fn new(significand: IBig, exponent: isize) -> Self {
         Self {
